@@ -21,8 +21,8 @@ EXPLANATION = (
 ASSUMPTIONS = ["u8::wrapping_add semantics"]
 
 
-def run(ctx):
-    for cfg in CONFIGS:
+def run(ctx, configs=None):
+    for cfg in (configs or CONFIGS):
         prog = ctx.prog(cfg)
         roles, eff = effects.build(prog)
         ft, fs, fnew, fr = roles.f_term, roles.f_setseq, roles.f_new, roles.f_read
